@@ -3,6 +3,6 @@
 WT=$1; N=$2; shift 2
 /verif/tools/confirm_seed.sh "$WT" "$N" 2>&1 | grep -E "CONFIRM|error" 
 if [ -e "$WT/seed/demo$N/run.sh" ]; then
-  ( cd "$WT" && git checkout -q -- . && git apply seed/mutation$N.diff && cargo build -p adf-bdd-bin --offline >/dev/null 2>&1; sh seed/demo$N/run.sh >/dev/null 2>&1; echo "CONFIRM-SH: demo_with_mutation_rc=$?"; git checkout -q -- . ; cargo build -p adf-bdd-bin --offline >/dev/null 2>&1; sh seed/demo$N/run.sh >/dev/null 2>&1; echo "CONFIRM-SH: demo_without_rc=$?" )
+  ( cd "$WT" && git checkout -q -- . && git apply seed/mutation$N.diff && cargo build -p adf-bdd-bin --offline >/dev/null 2>&1; bash seed/demo$N/run.sh >/dev/null 2>&1; echo "CONFIRM-SH: demo_with_mutation_rc=$?"; git checkout -q -- . ; cargo build -p adf-bdd-bin --offline >/dev/null 2>&1; bash seed/demo$N/run.sh >/dev/null 2>&1; echo "CONFIRM-SH: demo_without_rc=$?" )
 fi
 /verif/tools/run_seed.sh "$WT/seed/mutation$N.diff" "$@" 2>&1 | grep -E "^\s+\S+: |VIOLATION|INCONCLUSIVE|SEED-RESULT" | cut -c1-260 | head -12
